@@ -28,7 +28,13 @@
 #include <xercesc/util/PlatformUtils.hpp>
 #include <xercesc/util/Mutexes.hpp>
 
+#include <xercesc/util/XercesVerif.hpp>
+
 namespace XERCES_CPP_NAMESPACE {
+
+#ifdef XERCES_VERIF_HOOKS
+XercesVerif::EventFn XercesVerif::fgEvent = 0;
+#endif
 
 // ---------------------------------------------------------------------------
 //  XMLMutex: Constructors and Destructor
